@@ -23,11 +23,30 @@ struct Base {
     dim: usize,
     target: &'static str,
     idx: u64,
+    /// model variants: Model::math consumes its RNG / all chains start from the same point
+    math_uses_rng: bool,
+    same_start: bool,
 }
 
 fn gen_base(seed: u64, idx: u64) -> Base {
     let mut rng = HRng::new(seed).fork(idx);
     let preset = ALL_PRESETS[(idx % 6) as usize];
+    if idx % 45 == 30 {
+        // one very wide model: vector kernels that split their work above a size threshold must not make the result
+        // depend on the number of worker threads
+        return Base {
+            preset: Preset::DiagNuts,
+            num_tune: 3,
+            num_draws: 3,
+            num_chains: 2,
+            seed: rng.next_u64(),
+            dim: 20_000 + rng.below(5000) as usize,
+            target: "iso",
+            idx,
+            math_uses_rng: false,
+            same_start: false,
+        };
+    }
     Base {
         preset,
         num_tune: rng.int_range(0, 25) as u64,
@@ -37,6 +56,8 @@ fn gen_base(seed: u64, idx: u64) -> Base {
         dim: rng.int_range(2, 5) as usize,
         target: *rng.choose(&["iso", "scaled", "funnel"]),
         idx,
+        math_uses_rng: (idx / 6) % 3 == 1,
+        same_start: (idx / 6) % 3 == 2,
     }
 }
 
@@ -51,7 +72,10 @@ fn target_of(b: &Base) -> Target {
 
 fn spec_of(b: &Base, num_chains: u64, cores: usize) -> RunSpec {
     let settings = par::small_settings(b.preset, b.num_tune, b.num_draws, num_chains, b.seed, &[]);
-    RunSpec::new(b.preset, settings, target_of(b), cores)
+    let mut s = RunSpec::new(b.preset, settings, target_of(b), cores);
+    s.model_faults.math_uses_rng = b.math_uses_rng;
+    s.model_faults.same_start_for_all_chains = b.same_start;
+    s
 }
 
 fn storm(rng: &mut HRng, n: usize) -> Vec<Cmd> {
@@ -81,7 +105,8 @@ fn storm(rng: &mut HRng, n: usize) -> Vec<Cmd> {
 }
 
 fn base_json(b: &Base) -> J {
-    json!({"preset": b.preset.name(), "num_tune": b.num_tune, "num_draws": b.num_draws, "num_chains": b.num_chains, "seed": b.seed, "dim": b.dim, "target": b.target, "idx": b.idx})
+    json!({"preset": b.preset.name(), "num_tune": b.num_tune, "num_draws": b.num_draws, "num_chains": b.num_chains, "seed": b.seed, "dim": b.dim, "target": b.target, "idx": b.idx,
+        "math_uses_rng": b.math_uses_rng, "same_start": b.same_start})
 }
 
 fn variant_json(v: &RunSpec, num_chains: u64) -> J {
@@ -108,7 +133,7 @@ fn run_base(report: &mut Report, b: &Base, n_variants: usize, vseed: u64) -> boo
     match &reference.fin {
         Final::Trace(_) => {}
         other => {
-            report.violation(sig("reference_run_failed"), format!("uninterrupted single-core run ended with {:?}", std::mem::discriminant(other)), base_json(b));
+            report.violation(sig("reference_run_failed"), format!("uninterrupted single-core run ended with {other:?}").chars().take(300).collect::<String>(), base_json(b));
             return true;
         }
     }
@@ -125,6 +150,14 @@ fn run_base(report: &mut Report, b: &Base, n_variants: usize, vseed: u64) -> boo
             Some(nuts_rs::Value::F64(x)) => Some(crate::util::hash_f64s(x)),
             _ => None,
         })).collect();
+        // chains that start from one common point may legitimately coincide while neither has moved (a rejected or
+        // divergent first trajectory): the comparison needs a few distinct positions
+        let mut distinct = key.clone();
+        distinct.sort_unstable();
+        distinct.dedup();
+        if b.same_start && distinct.len() < 3 {
+            continue;
+        }
         if !firsts.insert(key) && b.dim > 0 {
             report.violation(sig("two_chains_with_identical_draws"), format!("chain {c} repeats the draws of another chain"), base_json(b));
         }
@@ -205,7 +238,7 @@ fn run_base(report: &mut Report, b: &Base, n_variants: usize, vseed: u64) -> boo
     }
     report.count("distinct_interleaving_signatures", signatures.len() as u64);
     let mut h = Fnv::new();
-    h.str(pname).u64(b.num_chains).u64(b.num_tune.min(1)).str(b.target);
+    h.str(pname).u64(b.num_chains).u64(b.num_tune.min(1)).str(b.target).u64(b.math_uses_rng as u64).u64(b.same_start as u64);
     report.nontrivial(h.finish());
     for s in signatures {
         report.nontrivial(s);
